@@ -223,7 +223,12 @@ class SeqFlow(object):
     """
 
     def __init__(self, classify, on_stmt=None, assume=None, loop_unroll=2,
-                 raise_default=False):
+                 raise_default=False, inliner=None, max_inline=2):
+        # inliner(call) -> FunctionDef node whose body is executed in place of
+        # the call (private helpers), or None
+        self.inliner = inliner
+        self.max_inline = max_inline
+        self._inline_stack = []
         self.classify = classify
         self.on_stmt = on_stmt
         self.assume = assume
@@ -271,6 +276,19 @@ class SeqFlow(object):
         if node is None:
             return cur
         for c in calls_in(node):
+            fn = self.inliner(c) if self.inliner is not None else None
+            if fn is not None and fn not in self._inline_stack and \
+                    len(self._inline_stack) < self.max_inline:
+                self._inline_stack.append(fn)
+                try:
+                    r = self.block(fn.body, cur)
+                finally:
+                    self._inline_stack.pop()
+                cur = r.pop(NORMAL, set()) | r.pop(RETURN, set())
+                for k, v in r.items():
+                    if isinstance(k, tuple):
+                        self._merge(out, k, v)
+                continue
             events, may_raise = self.classify(c)
             if may_raise:
                 exc = 'Exception'
